@@ -10,6 +10,7 @@ package c02
 // shapes those clauses were applied to.
 
 import (
+	"encoding/binary"
 	"fmt"
 
 	"github.com/Eyevinn/mp4ff/mp4"
@@ -223,11 +224,74 @@ func census(c *runner.Ctx, s work.Struct, x work.Encodable, nodes []*boxwalk.Nod
 		case "dec3":
 			c.Count("dec3_boxes_written/"+org, 1)
 			dec3Census(c, org, n.Payload(b))
+		case "moof":
+			moofCensus(c, s, x, n, b)
+		case "sidx":
+			// 8.16.3: 32-bit earliest_presentation_time/first_offset for version 0, 64-bit otherwise
+			if p := n.Payload(b); len(p) >= 24 {
+				at, fixed := 22, 32
+				if p[0] != 0 {
+					at, fixed = 30, 40
+				}
+				layout := "box shorter than its fixed part"
+				if len(p) >= at+2 {
+					cnt := int(binary.BigEndian.Uint16(p[at:]))
+					layout = fmt.Sprintf("references=%d size=fixed(version)+12*references: %v", minInt(cnt, 4), n.Size == fixed+12*cnt)
+				}
+				c.Seen("sidx_written", fmt.Sprintf("%s version=%d %s", org, p[0], layout))
+			}
 		}
 	}
 	if !s.Decoded {
-		apiFields(c, x, 0)
+		apiFields(c, work.TypeOf(x), x, 0)
 	}
+}
+
+// moofCensus records, for every written movie fragment that has exactly one
+// track run (the shape for which Fragment.SetTrunDataOffsets recomputes the
+// offset during an encode), how the run addresses its data: tf_flags and
+// tr_flags are read from the written bytes (ISO/IEC 14496-12 8.8.7, 8.8.8).
+func moofCensus(c *runner.Ctx, s work.Struct, x work.Encodable, moof *boxwalk.Node, b []byte) {
+	var tfhd, trun *boxwalk.Node
+	truns := 0
+	for _, t := range moof.Children {
+		if t.Type != "traf" {
+			continue
+		}
+		for _, n := range t.Children {
+			switch n.Type {
+			case "trun":
+				truns++
+				trun = n
+				if tfhd == nil || tfhd.Parent != t {
+					tfhd = t.Child("tfhd")
+				}
+			}
+		}
+	}
+	if truns != 1 || tfhd == nil || len(tfhd.Payload(b)) < 4 || len(trun.Payload(b)) < 4 {
+		return
+	}
+	tf := binary.BigEndian.Uint32(tfhd.Payload(b)) & 0xffffff
+	tr := binary.BigEndian.Uint32(trun.Payload(b)) & 0xffffff
+	yn := func(v uint32) string {
+		if v != 0 {
+			return "present"
+		}
+		return "absent"
+	}
+	level := work.TypeOf(x)
+	if _, isBox := x.(mp4.Box); isBox {
+		level = "box"
+	}
+	if level == "File" {
+		level = "File/box-tree"
+		if f, ok := x.(*mp4.File); ok && f.IsFragmented() && f.FragEncMode == mp4.EncModeSegment {
+			level = "File/segment-mode"
+		}
+	}
+	c.Seen("single_trun_fragment_written", fmt.Sprintf("%s %s optimize=%v: trun data_offset %s, tfhd base_data_offset %s, default-base-is-moof %s",
+		origin(s), level, s.Optimize, yn(tr&1), yn(tf&1), map[bool]string{false: "clear", true: "set"}[tf&0x020000 != 0]))
 }
 
 // apiFields records, for API-built structures, the public fields the sizes
@@ -237,8 +301,30 @@ func census(c *runner.Ctx, s work.Struct, x work.Encodable, nodes []*boxwalk.Nod
 // 14496-1 layout with the one-digit size fields CreateEsdsBox prescribes: the
 // written size fields of such a box hold the value modulo 128, so the bytes do
 // not tell).
-func apiFields(c *runner.Ctx, x work.Encodable, depth int) {
+func apiFields(c *runner.Ctx, top string, x work.Encodable, depth int) {
 	switch v := x.(type) {
+	case *mp4.SidxBox:
+		// the fields whose width depends on the version, against the 32-bit limit
+		cl := func(v uint64) string {
+			switch {
+			case v < 1<<31:
+				return "<2^31"
+			case v < 1<<32-1:
+				return "<2^32-1"
+			case v == 1<<32-1:
+				return "2^32-1"
+			case v == 1<<32:
+				return "2^32"
+			}
+			return ">2^32"
+		}
+		big := false
+		for _, r := range v.SidxRefs {
+			big = big || r.ReferencedSize >= 1<<31-1 || r.SAPDeltaTime >= 1<<28-1
+		}
+		c.Seen("sidx_api_fields", fmt.Sprintf("in %s: Version=%d EarliestPresentationTime %s FirstOffset %s", top, v.Version, cl(v.EarliestPresentationTime), cl(v.FirstOffset)))
+		c.Seen("sidx_api_references", fmt.Sprintf("Version=%d references=%d bit-fields-at-limit=%v", v.Version, minInt(len(v.SidxRefs), 4), big))
+		return
 	case *mp4.Dec3Box:
 		dec3Fields(c, v)
 		return
@@ -279,7 +365,7 @@ func apiFields(c *runner.Ctx, x work.Encodable, depth int) {
 		return
 	}
 	for _, ch := range work.Children(x) {
-		apiFields(c, ch, depth+1)
+		apiFields(c, top, ch, depth+1)
 	}
 }
 
